@@ -67,7 +67,7 @@ def build_harness(name, flavour="hooks", extra_flags=(), libs=()):
            bdir + "/src/xalanc/NLS/gen", os.path.join(ROOT, "harness")]
     flags = ["-std=c++14", "-O1", "-g1", "-DNDEBUG", "-DAPACHE_XALAN_C_VERIF", "-Wno-deprecated-declarations"]
     if flavour == "asan":
-        flags += ["-fsanitize=address,undefined", "-fno-sanitize-recover=undefined", "-fno-sanitize=vptr", "-fno-omit-frame-pointer"]
+        flags += ["-fsanitize=address,undefined,float-cast-overflow", "-fno-sanitize-recover=undefined,float-cast-overflow", "-fno-sanitize=vptr", "-fno-omit-frame-pointer"]
     cmd = ["c++"] + flags + list(extra_flags) + ["-I" + i for i in inc] + [src, "-o", exe + ".tmp",
            "-L" + bdir + "/src/xalanc", "-L" + bdir + "/src/xalanc/Utils/XalanMsgLib",
            "-Wl,-rpath," + bdir + "/src/xalanc", "-Wl,-rpath," + bdir + "/src/xalanc/Utils/XalanMsgLib",
